@@ -5,7 +5,7 @@
 //            [--data /verif/data] [--wpt /repo/tests/wpt] [--tools /verif/tools] [--only stage,stage] [--deadline s]
 //
 // C06 stages (each exhaustive on its finite domain, judged by refidna = UTS46/NFC/RFC 3492/RFC 5892/RFC 5893 over
-// vendored Unicode 17 data):  map | nfc | puny | compose | url | audit | wpt
+// vendored Unicode 17 data):  map | nfc | puny | compose | labelseq | url | audit | wpt
 // C16 stages (metamorphic; refidna is used only as a *filter*: a pair of spellings is judged only if the Standard
 // itself gives both the same result):  orbit | labels
 #include <set>
@@ -133,7 +133,7 @@ static TA judge_to_ascii(const U32& x, const char* stage, bool quiet = false) {
   if (V0.to_ascii(in) != t.exp) { R.counters["variant0_differs_from_refidna"]++; }
   int mask = explain(relevant_devs(x), [&](const Variant& v) { return v.to_ascii(in) == t.got; });
   std::string dir = t.got && !t.exp ? "ada-accepts" : (!t.got && t.exp ? "ada-rejects" : "different-output");
-  t.cls = mask >= 0 ? dev_class(mask, x) : "to_ascii/unexplained:" + dir + ":" + model_reason(x);
+  t.cls = mask >= 0 ? dev_class(mask, x) : "to_ascii/unexplained:" + std::string(strcmp(stage, "label-seq") == 0 ? "label-sequence:" : "") + dir + ":" + model_reason(x);
   if (!quiet)
     viol(t.cls, std::string("[") + stage + "] to_ascii(\"" + vis(x) + "\") = " + optshow(t.got) + ", UTS46(Unicode 17) = " + optshow(t.exp) +
                      (mask >= 0 ? "  [reproduced by the model with deviation " + mask_names(mask) + "]" : "  [model reason " + model_reason(x) + "]"),
@@ -487,6 +487,63 @@ static void stage_compose(int sh, int ns, bool T) {
   }
 }
 
+// ------------------------------------------------------------------------------------------------ stage: labelseq
+// Domains built from a menu of WHOLE labels: what is probed is state carried from one label to the next (scratch buffers,
+// the Bidi-domain flag, the output cursor).  Every ACE label of the menu is built with the RFC 3492 reference encoder.
+static U32 ace_of(const U32& t) { U32 o = U"xn--"; auto e = refidna::punycode_encode(t); for (char c : e.value_or("")) o.push_back((unsigned char)c); return o; }
+static std::vector<U32> label_menu(bool reduced) {
+  std::vector<U32> m = {
+      // valid ACE labels (decode to non-ASCII, NFC, valid)
+      ace_of(U32{U'm', U'a', 0x00F1, U'a', U'n', U'a'}) /* xn--maana-pta */, ace_of(U32{U'e', 0x00E9}), ace_of(U32{0x00E9}) /* xn--9ca */,
+      ace_of(U32{0x05D0}) /* xn--4db, R */,
+      // ACE labels that must be rejected, each for a different reason
+      U"xn--abc-" /* decodes to ASCII only */, ace_of(U32{U'a', 0x0308}) /* decode is not NFC */, U"xn--a_b" /* invalid digit */,
+      ace_of(U32{0x0301, U'a'}) /* decode starts with a mark */, ace_of(U32{0x00C9}) /* decode is a mapped (upper-case) letter */,
+      // plain ASCII, raw non-ASCII, empty
+      U"a", U"0", U32{0x00FC}, U32{0x05D0}, U""};
+  if (!reduced) {
+    std::vector<U32> more = {
+        ace_of(U32{U'q', 0x0142}), ace_of(U32{0x0645, 0x062B, 0x0627, 0x0644}) /* Arabic, AL */,
+        ace_of(U32{U'x', U'n', U'-', U'-', 0x00E9}) /* decode begins with xn-- */, ace_of(U32{0x0080}) /* decode is disallowed */,
+        ace_of(U32{0x05D0, U'a'}) /* decode breaks the Bidi rule by itself */, U"XN--9CA" /* upper-case spelling of a valid ACE label */,
+        U"A-b", U32{0x00E9}};
+    m.insert(m.end(), more.begin(), more.end());
+  }
+  return m;
+}
+template <class F>
+static void enum_label_seq(const std::vector<U32>& menu, int kmin, int kmax, int sh, int ns, uint64_t& ord, F&& f) {
+  for (int len = kmin; len <= kmax; len++) {
+    Odometer od(std::vector<int>(len, int(menu.size())));
+    U32 s;
+    while (od.next()) {
+      if (int(ord++ % ns) != sh) continue;
+      if (out_of_time()) return;
+      s.clear();
+      for (int i = 0; i < len; i++) { if (i) s.push_back(U'.'); s += menu[od.idx[i]]; }
+      f(s);
+    }
+  }
+}
+static void stage_url_label(const U32& x);
+static void labelseq_one(const U32& x) {
+  R.counters["label_sequence_domains"]++;
+  TA t = judge_to_ascii(x, "label-seq");
+  std::string in = u8(x), uo;
+  if (!ada::idna::to_unicode(in, uo)) viol("to_unicode/returned-false", "to_unicode(\"" + vis(x) + "\") returned false", wit("to_unicode-any", x).done(), x.size());
+  if (t.got && t.got->find("xn--") != std::string::npos) judge_to_unicode(*t.got, "label-seq");
+  // ToUnicode keeps its own per-label scratch state: judge it on the (lower-cased) ASCII spelling as well
+  if (all_ascii(x)) { std::string l = in; for (char& c : l) if (c >= 'A' && c <= 'Z') c = char(c - 'A' + 'a'); judge_to_unicode(l, "label-seq"); }
+  stage_url_label(x);
+}
+static void stage_labelseq(int sh, int ns, bool T) {
+  uint64_t ord = 0;
+  auto full = label_menu(false), red = label_menu(true);
+  g_extra["label_menu"] = std::to_string(full.size()); g_extra["label_menu_reduced"] = std::to_string(red.size());
+  enum_label_seq(full, 2, 3, sh, ns, ord, labelseq_one);
+  if (T) enum_label_seq(red, 4, 4, sh, ns, ord, labelseq_one);
+}
+
 // ------------------------------------------------------------------------------------------------ stage: url
 static std::string set_hook_variant(const Variant& v) {
   static Variant cur; cur = v;
@@ -521,6 +578,11 @@ static void url_one(const char* tn, const U32& x, bool via_setter, bool pct) {
   std::string cls = mask >= 0 ? dev_class(mask, x) : std::string("url/") + (via_setter ? "set_hostname:" : "parse:") + d + ":" + tn;
   viol(cls, std::string(tn) + (via_setter ? " set_hostname(\"" : " parse(\"https://") + vis8(host) + (via_setter ? "\")" : "/\")") + ": ada hostname=" + (o.ok ? "\"" + o.hostname + "\"" : "<failure>") +
                 " model hostname=" + (r ? "\"" + refurl::hostname(*r) + "\"" : "<failure>") + (mask >= 0 ? "  [reproduced by the model with deviation " + mask_names(mask) + "]" : " first difference: " + d), w, x.size());
+}
+static void stage_url_label(const U32& x) {
+  url_one<ada::url>("url", x, false, false);
+  url_one<ada::url_aggregator>("aggregator", x, false, false);
+  url_one<ada::url_aggregator>("aggregator", x, true, false);
 }
 static void stage_url(int sh, int ns, bool T) {
   uint64_t ord = 0;
@@ -790,6 +852,11 @@ static void stage_orbit(int sh, int ns, bool T) {
   uint64_t ord = 0;
   int k = int(A.geti("klen", T ? 4 : 3));
   enum_sigma(sigma_idna(), 1, k, sh, ns, ord, [&](const U32& x) { c16_one(x, true, true, "orbit"); });
+  // sequences of whole labels (state carried across labels), same menu as C06's labelseq stage
+  auto full = label_menu(false), red = label_menu(true);
+  g_extra["label_menu"] = std::to_string(full.size());
+  enum_label_seq(full, 2, T ? 3 : 2, sh, ns, ord, [&](const U32& x) { R.counters["label_sequence_domains"]++; c16_one(x, true, true, "label-seq"); });
+  enum_label_seq(red, 3, 3, sh, ns, ord, [&](const U32& x) { if (!T) { R.counters["label_sequence_domains"]++; c16_one(x, true, true, "label-seq"); } });
 }
 static void stage_labels(int sh, int ns, bool T) {
   uint64_t ord = 0;
@@ -872,6 +939,7 @@ int main(int argc, char** argv) {
     run("nfc", [&] { stage_nfc(sh, ns, T); });
     run("puny", [&] { stage_puny(sh, ns, T); });
     run("compose", [&] { stage_compose(sh, ns, T); });
+    run("labelseq", [&] { stage_labelseq(sh, ns, T); });
     run("url", [&] { stage_url(sh, ns, T); });
     run("audit", [&] { stage_audit(sh, ns); });
     run("wpt", [&] { stage_wpt(sh); });
